@@ -236,4 +236,147 @@ Section Proofs.
     rewrite (ksum_ext _ (fun m => (ca * cb) * (pl_entry la r m * pl_entry lb m c))) by (intros; ring).
     rewrite ksum_scale, pl_entry_mul by exact Hlen. ring.
   Qed.
+
+  (* ----- sparse strings: the dict loop of _imul_helper ----- *)
+  Lemma is_pI_true p : is_pI p = true -> p = pI. Proof. destruct p; intro H; try discriminate; reflexivity. Qed.
+  Lemma pm_get_pop_same m q t : pm_get (pm_pop m q ++ t) q = pm_get t q.
+  Proof.
+    induction m as [|[k v] m IH]; simpl; [reflexivity|].
+    destruct (Z.eqb_spec k q) as [->|Hne]; simpl; [exact IH|].
+    destruct (Z.eqb_spec k q); [contradiction|exact IH].
+  Qed.
+  Lemma pm_get_pop_other m q t q' : q <> q' -> pm_get t q' = pI -> pm_get (pm_pop m q ++ t) q' = pm_get m q'.
+  Proof.
+    intros Hne Ht. induction m as [|[k v] m IH]; simpl; [exact Ht|].
+    destruct (Z.eqb_spec k q) as [->|Hkq]; simpl.
+    - destruct (Z.eqb_spec q q'); [contradiction|exact IH].
+    - destruct (Z.eqb_spec k q'); [reflexivity|exact IH].
+  Qed.
+  Lemma pm_get_set m q p q' : pm_get (pm_set m q p) q' = if (q =? q')%Z then p else pm_get m q'.
+  Proof.
+    unfold pm_set. destruct (is_pI p) eqn:Hp.
+    - apply is_pI_true in Hp. subst p. rewrite <- (app_nil_r (pm_pop m q)).
+      destruct (Z.eqb_spec q q') as [->|Hne]; [apply pm_get_pop_same|apply pm_get_pop_other; [exact Hne|reflexivity]].
+    - destruct (Z.eqb_spec q q') as [->|Hne].
+      + rewrite pm_get_pop_same. simpl. rewrite Z.eqb_refl. reflexivity.
+      + apply pm_get_pop_other; [exact Hne|]. simpl. destruct (Z.eqb_spec q q'); [contradiction|reflexivity].
+  Qed.
+  Lemma pm_get_notin m q : ~ In q (pm_keys m) -> pm_get m q = pI.
+  Proof.
+    induction m as [|[k v] m IH]; simpl; intros H; [reflexivity|].
+    destruct (Z.eqb_spec k q) as [->|Hne]; [exfalso; apply H; left; reflexivity|]. apply IH. intros Hin. apply H. right. exact Hin.
+  Qed.
+
+  Definition items_phase (sign : Z) (m items : pmap) : Z :=
+    fold_right (fun e acc => (atom_phase (snd e) (pm_get m (fst e)) sign + acc)%Z) 0%Z items.
+  Lemma items_phase_ext sign m m' items :
+    (forall e, In e items -> pm_get m' (fst e) = pm_get m (fst e)) -> items_phase sign m' items = items_phase sign m items.
+  Proof.
+    induction items as [|e items IH]; simpl; intros H; [reflexivity|].
+    rewrite (H e (or_introl eq_refl)), IH; [reflexivity|]. intros e' He'. apply H. right. exact He'.
+  Qed.
+  Lemma imul_map_spec sign : forall items m ph, NoDup (pm_keys items) ->
+    (forall q, pm_get (fst (fold_left (atom_step sign) items (m, ph))) q = pxor (pm_get items q) (pm_get m q))
+    /\ snd (fold_left (atom_step sign) items (m, ph)) = (ph + items_phase sign m items)%Z.
+  Proof.
+    induction items as [|[q0 l0] items IH]; intros m ph Hnd.
+    - simpl. split; [intros q; rewrite pxor_I_l; reflexivity|lia].
+    - simpl in Hnd. inversion Hnd as [|? ? Hnotin Hnd']. subst.
+      change (fold_left (atom_step sign) ((q0, l0) :: items) (m, ph))
+        with (fold_left (atom_step sign) items
+                (pm_set m q0 (pxor l0 (pm_get m q0)), (ph + atom_phase l0 (pm_get m q0) sign)%Z)).
+      destruct (IH (pm_set m q0 (pxor l0 (pm_get m q0))) (ph + atom_phase l0 (pm_get m q0) sign)%Z Hnd') as [Hg Hp].
+      split.
+      + intros q. rewrite Hg, pm_get_set. simpl. destruct (Z.eqb_spec q0 q) as [->|Hne]; [|reflexivity].
+        rewrite (pm_get_notin items q Hnotin), pxor_I_l. reflexivity.
+      + rewrite Hp. simpl. rewrite (items_phase_ext sign m); [lia|].
+        intros e He. rewrite pm_get_set. destruct (Z.eqb_spec q0 (fst e)) as [Heq|Hne]; [|reflexivity].
+        exfalso. apply Hnotin. rewrite Heq. apply in_map. exact He.
+  Qed.
+
+  Definition sumZ (l : list Z) : Z := fold_right Z.add 0%Z l.
+  Lemma sumZ_pick (qs : list qid) (q0 : qid) (v : Z) (h : qid -> Z) : NoDup qs -> In q0 qs -> h q0 = 0%Z ->
+    sumZ (map (fun q => if (q0 =? q)%Z then v else h q) qs) = (v + sumZ (map h qs))%Z.
+  Proof.
+    intros Hnd Hin H0. induction qs as [|x qs IH]; [contradiction|].
+    inversion Hnd as [|? ? Hx Hnd']. subst. simpl.
+    destruct (Z.eqb_spec q0 x) as [->|Hne].
+    - rewrite H0, Z.add_0_l. f_equal. f_equal. apply map_ext_in. intros q Hq.
+      destruct (Z.eqb_spec x q) as [->|]; [contradiction|reflexivity].
+    - destruct Hin as [Heq|Hin]; [congruence|]. rewrite (IH Hnd' Hin). lia.
+  Qed.
+  (* a sum over the items of a string is the sum over any duplicate-free qubit list containing its keys *)
+  Lemma items_sum_reindex (g : qid -> pauli -> Z) (qs : list qid) : (forall q, g q pI = 0%Z) -> NoDup qs ->
+    forall items, NoDup (pm_keys items) -> incl (pm_keys items) qs ->
+    sumZ (map (fun e : qid * pauli => g (fst e) (snd e)) items) = sumZ (map (fun q : qid => g q (pm_get items q)) qs).
+  Proof.
+    intros Hg Hqs. induction items as [|[q0 l0] items IH]; intros Hnd Hincl.
+    - simpl. clear Hqs Hincl. induction qs as [|x qs' IHq]; simpl; [reflexivity|]. rewrite Hg, <- IHq. reflexivity.
+    - inversion Hnd as [|? ? Hnotin Hnd']. subst. simpl map at 1. simpl sumZ at 1.
+      rewrite (IH Hnd') by (intros x Hx; apply Hincl; right; exact Hx).
+      rewrite <- (sumZ_pick qs q0 (g q0 l0) (fun q => g q (pm_get items q)) Hqs).
+      + f_equal. apply map_ext. intros q. simpl. destruct (Z.eqb_spec q0 q) as [->|]; reflexivity.
+      + apply Hincl. left. reflexivity.
+      + rewrite (pm_get_notin items q0 Hnotin). apply Hg.
+  Qed.
+  Lemma items_phase_sum sign m items :
+    items_phase sign m items = sumZ (map (fun e => atom_phase (snd e) (pm_get m (fst e)) sign) items).
+  Proof. induction items as [|e items IH]; simpl; [reflexivity|]. rewrite IH. reflexivity. Qed.
+  Lemma zip_phase_letters qs A B :
+    zip_phase (letters qs A) (letters qs B) = sumZ (map (fun q => mul_phase (pm_get A q) (pm_get B q)) qs).
+  Proof. unfold letters. induction qs as [|q qs IH]; simpl; [reflexivity|]. rewrite IH. reflexivity. Qed.
+  Lemma zip_xor_letters qs A B :
+    zip_xor (letters qs A) (letters qs B) = map (fun q => pxor (pm_get A q) (pm_get B q)) qs.
+  Proof. unfold letters. induction qs as [|q qs IH]; simpl; [reflexivity|]. rewrite IH. reflexivity. Qed.
+  Lemma atom_phase_I old s : atom_phase pI old s = 0%Z. Proof. reflexivity. Qed.
+  Lemma letters_length qs m : length (letters qs m) = length qs. Proof. apply map_length. Qed.
+
+  (* the Mapping branch: sign = -1 multiplies the items on the right, sign = +1 on the left *)
+  Theorem imul_items_sound_right qs (P : pstr) (items : pmap) :
+    NoDup qs -> NoDup (pm_keys items) -> incl (pm_keys items) qs ->
+    ps_matrix O qs (imul_items O (-1) P items) = mmul O (ps_matrix O qs P) (dense_matrix O z1 (letters qs items)).
+  Proof.
+    intros Hqs Hnd Hincl. unfold ps_matrix, imul_items, imul_map.
+    destruct (imul_map_spec (-1) items (pm P) 0%Z Hnd) as [Hg Hp]. simpl pm. simpl coef.
+    rewrite dense_mul_matrix by (rewrite !letters_length; reflexivity).
+    rewrite ipow_land, Hp, Z.add_0_l, items_phase_sum.
+    pose proof (items_sum_reindex (fun q l => atom_phase l (pm_get (pm P) q) (-1)) qs (fun q => atom_phase_I _ _) Hqs items Hnd Hincl) as Hre.
+    cbv beta in Hre. rewrite Hre. clear Hre.
+    rewrite zip_phase_letters, zip_xor_letters.
+    replace (map (fun q => atom_phase (pm_get items q) (pm_get (pm P) q) (-1)) qs)
+      with (map (fun q => mul_phase (pm_get (pm P) q) (pm_get items q)) qs)
+      by (apply map_ext; intros q; symmetry; apply atom_phase_right).
+    replace (letters qs (fst (fold_left (atom_step (-1)) items (pm P, 0%Z))))
+      with (map (fun q => pxor (pm_get (pm P) q) (pm_get items q)) qs)
+      by (unfold letters; apply map_ext; intros q; rewrite Hg; apply pxor_comm).
+    f_equal. ring.
+  Qed.
+  Theorem imul_items_sound_left qs (P : pstr) (items : pmap) :
+    NoDup qs -> NoDup (pm_keys items) -> incl (pm_keys items) qs ->
+    ps_matrix O qs (imul_items O 1 P items) = mmul O (dense_matrix O z1 (letters qs items)) (ps_matrix O qs P).
+  Proof.
+    intros Hqs Hnd Hincl. unfold ps_matrix, imul_items, imul_map.
+    destruct (imul_map_spec 1 items (pm P) 0%Z Hnd) as [Hg Hp]. simpl pm. simpl coef.
+    rewrite dense_mul_matrix by (rewrite !letters_length; reflexivity).
+    rewrite ipow_land, Hp, Z.add_0_l, items_phase_sum.
+    pose proof (items_sum_reindex (fun q l => atom_phase l (pm_get (pm P) q) 1) qs (fun q => atom_phase_I _ _) Hqs items Hnd Hincl) as Hre.
+    cbv beta in Hre. rewrite Hre. clear Hre.
+    rewrite zip_phase_letters, zip_xor_letters.
+    replace (map (fun q => atom_phase (pm_get items q) (pm_get (pm P) q) 1) qs)
+      with (map (fun q => mul_phase (pm_get items q) (pm_get (pm P) q)) qs)
+      by (apply map_ext; intros q; symmetry; apply atom_phase_left).
+    replace (letters qs (fst (fold_left (atom_step 1) items (pm P, 0%Z))))
+      with (map (fun q => pxor (pm_get items q) (pm_get (pm P) q)) qs)
+      by (unfold letters; apply map_ext; intros q; rewrite Hg; reflexivity).
+    f_equal. ring.
+  Qed.
 End Proofs.
+
+(* ---------- the executable comparison instance Q(i) satisfies the laws the theorems assume ---------- *)
+Lemma GQ_PLaws : PLaws GQOps.
+Proof.
+  constructor.
+  - constructor; simpl; intros; repeat match goal with x : GQ |- _ => destruct x end;
+      unfold gq_add, gq_mul, gq_sub, gq_opp; simpl; f_equal; ring.
+  - simpl. unfold gq_mul, gq_opp. simpl. f_equal; ring.
+Qed.
